@@ -66,7 +66,7 @@ Unchecked ==
    linux |-> {"PS1=router#", "uname -r", "uname -m", "grep 'NetSPoC' /etc/issue"},
    panos |-> {}, nsx |-> {}]
 KF_Unchecked ==
-  /\ fk \in {"reject", "garbage"}
+  /\ fk \in {"reject", "garbage", "warnreject"}
   /\ \/ ftext \in Unchecked[P.type]
      \* ASA: the first `configure terminal` / `end` pair belongs to setTerminal (SendCmd)
      \/ (P.type = "asa" /\ ftext \in {"configure terminal", "end"} /\ fconf < 2)
